@@ -30,6 +30,60 @@ func PickPolicy(sw *tape.Stream, cfg *sched.Config) {
 	}
 }
 
+// GenArrivals turns a closed workload (every task issues its requests back to back) into an
+// open one: each request gets an arrival offset / think time on the virtual clock, drawn from
+// the "arrival" stream. The number of requests in flight then rises and falls during the run
+// instead of staying at the number of tasks, which is what anything an instance keeps per
+// request in flight (free lists, pools, slot tables) needs in order to be exercised.
+func GenArrivals(arr *tape.Stream, reqs [][]*Req) {
+	scale := int64(1)
+	if AutoMode {
+		scale = 25 // statement-level steps are that much finer; keep think times comparable to request lengths
+	}
+	for _, l := range reqs {
+		for _, q := range l {
+			switch arr.Weighted(4, 3, 2, 1) {
+			case 1:
+				q.Think = scale * int64(1+arr.Intn(80))
+			case 2:
+				q.Think = scale * int64(80+arr.Intn(800))
+			case 3:
+				q.Think = scale * int64(800+arr.Intn(8000))
+			}
+		}
+	}
+}
+
+// SleepFn returns the scheduler's Sleep callback for reqs: a task that has parked at the
+// request boundary sleeps for the think time of the request it is about to issue. cur[task]
+// must already name that request (OnYield runs first); started is moved along so that virtual
+// deadlines count from the moment the request is issued.
+func SleepFn(reqs [][]*Req, cur []int, started []int64, res *eng.Result) func(task, site int, now int64) int64 {
+	return func(task, site int, now int64) int64 {
+		if site != SiteReq {
+			return 0
+		}
+		k := cur[task]
+		if k < 0 || k >= len(reqs[task]) {
+			return 0
+		}
+		d := reqs[task][k].Think
+		if d > 0 {
+			started[task] += d
+		}
+		return d
+	}
+}
+
+// NoteClock copies the virtual-clock figures of a scheduler run into res.
+func NoteClock(sr *sched.Result, res *eng.Result) {
+	if sr.Sleeps > 0 {
+		res.Probes["open_workload_runs"]++
+		res.Probes["think_time_sleeps"] += sr.Sleeps
+		res.Probes["virtual_clock_jumps"] += sr.ClockJumps
+	}
+}
+
 // RunTasks serves reqs[i] in order on task i under the scheduler, delivering
 // virtual deadlines as asynchronous cancels, and copies the scheduler's
 // figures into res.
@@ -59,6 +113,7 @@ func (w *World) RunTasks(reqs [][]*Req, cfg sched.Config, res *eng.Result) *sche
 		}
 		return 0
 	}
+	cfg.Sleep = SleepFn(reqs, cur, started, res)
 	bodies := make([]func(*sched.Task), n)
 	for i := range bodies {
 		i := i
@@ -72,6 +127,7 @@ func (w *World) RunTasks(reqs [][]*Req, cfg sched.Config, res *eng.Result) *sche
 		}
 	}
 	sr := sched.Run(cfg, bodies)
+	NoteClock(sr, res)
 	res.Steps, res.Ticks, res.Switches = sr.Steps, sr.Ticks, sr.Switches
 	res.SchedHash, res.SwitchHash, res.SwitchPairs, res.Sites = sr.SchedHash, sr.SwitchHash, sr.SwitchPairs, sr.SiteHits
 	res.Blocked = sr.BlockedHandovers
